@@ -23,6 +23,7 @@ func init() {
 		Assumptions: []string{"sync.RWMutex semantics", "maps.Clone returns a fresh map"},
 		Rules: []Rule{
 			{ID: "C19.R1", Min: 30, Desc: "tables only under mu; snapshot iteration", Fn: c19Tables},
+			{ID: "C19.R7", Min: 1, Desc: "the library unsubscribes an actor from everything only for that actor itself", Fn: c19UnsubscribeOwner},
 			{ID: "C19.R2", Min: 8, Desc: "indexes updated together; whole entries deleted only when empty", Fn: c19Indexes},
 			{ID: "C19.R3", Min: 3, Desc: "fan-out: own type key, each snapshot element told exactly once with the event", Fn: c19Fanout},
 			{ID: "C19.R5", Min: 2, Desc: "unsubscribe-all on termination, not on restart", Fn: c19Lifecycle},
@@ -639,4 +640,73 @@ func (p *Program) wholeEntryDeletes(r *Report, fn *ssa.Function, tbl *types.Var,
 			"delete(table, key) is dominated by an edge asserting len(table[key]) == 0 for the same table and key, or follows a loop over table[key] that removes the entries one by one: "+consequence)
 	}
 	return n
+}
+
+
+// c19UnsubscribeOwner: the subscriber tables are keyed by path. UnsubscribeAll(x) therefore drops the subscriptions of whatever
+// actor lives at x's path — calling it for a context that merely shares the path (a spawn attempt rejected as a duplicate
+// name) silently unsubscribes the live actor. Who-may-call: inside the module UnsubscribeAll is called either by the kill
+// chain's cleanup step with the dying actor's own context, or with the context an actor's behaviour was handed as a parameter.
+func c19UnsubscribeOwner(p *Program, r *Report) {
+	lc := lcOrFail(p, r)
+	es := c19Roles(p, r)
+	if lc == nil || es == nil {
+		return
+	}
+	cg := p.igx(lc.Cleanup)
+	n := 0
+	for fn := range p.All {
+		if !p.inModule(fn) || len(fn.Blocks) == 0 {
+			continue
+		}
+		if fn.Signature.Recv() != nil && namedOf(fn.Signature.Recv().Type()) == es.T {
+			continue // the stream's own methods
+		}
+		for _, b := range fn.Blocks {
+			for _, in := range b.Instrs {
+				c := callOf(in)
+				if c == nil || len(c.Args) == 0 {
+					continue
+				}
+				name := ""
+				if c.IsInvoke() {
+					name = c.Method.Name()
+				} else if y := c.StaticCallee(); y != nil && y.Signature.Recv() != nil && namedOf(y.Signature.Recv().Type()) == es.T {
+					name = y.Name()
+				}
+				if name != "UnsubscribeAll" {
+					continue
+				}
+				n++
+				arg := c.Args[len(c.Args)-1]
+				ok, why := false, ""
+				o := p.origins(arg)
+				switch {
+				case (cg.owns(p, fn) || (fn.Signature.Recv() != nil && namedOf(fn.Signature.Recv().Type()) == lc.HandlerT)) && allContain(o, "field:"+lc.HandlerT.Obj().Name()+"."):
+					ok, why = true, "a step of the kill chain, for the dying actor's own context (when and on which paths: R5, R6)"
+				default:
+					ok = true
+					for _, s := range o {
+						if !strings.HasPrefix(s, "param:") {
+							ok = false
+						}
+					}
+					if prm, isP := strip(arg).(*ssa.Parameter); ok && isP {
+						_, isIface := prm.Type().Underlying().(*types.Interface)
+						ok = isIface
+					} else {
+						ok = false
+					}
+					why = "the context handed to the calling behaviour"
+					if !ok {
+						why = "the argument (" + strings.Join(o, " | ") + ") is neither the dying actor's own context nor the caller's own: the tables are keyed by path, so this drops the subscriptions of whoever lives at that path"
+					}
+				}
+				r.Check(ok, "UnsubscribeAll in "+fnName(fn), in.Pos(), why)
+			}
+		}
+	}
+	if n == 0 {
+		r.Unresolved("no call of UnsubscribeAll in the module")
+	}
 }
